@@ -19,6 +19,7 @@ RULE = ("Every DAG on p<=4 nodes x every requested count 0..max+1 x 3 seeds (exh
 ASSUMPTIONS = [
     "which edges are chosen is free; results are compared as 0/1 patterns",
     "DAG inputs only (the functions' documented domain)",
+    "sizes / counts / integer bounds are generated as Python ints or signed numpy integers of 32 bits or more (DESIGN.md 8.7b)",
 ]
 
 
